@@ -3,6 +3,7 @@
 The task text carries only the property and short descriptions of changes already tried (so new ones differ); nothing about /verif's rules."""
 import json,os,sys,glob,subprocess,re
 D=sys.argv[1]
+FRESH=len(sys.argv)>2 and sys.argv[2]=='--fresh'  # no list of earlier changes: what an independent seeder would get
 os.makedirs(D,exist_ok=True)
 claimed=[c for c in json.load(open('/verif/MANIFEST.json'))['claims']] if False else None
 props=[json.loads(l) for l in open('/verif/properties.jsonl')]
@@ -96,7 +97,16 @@ for p in props:
     anchors=p.get('anchors',{})
     files=', '.join(anchors.get('files',[])) if isinstance(anchors,dict) else ''
     mech='\n'.join('- '+(a if isinstance(a,str) else (a.get('name','')+' ('+a.get('where','')+')')) for a in (anchors.get('mechanism',[]) if isinstance(anchors,dict) else []))
-    t=T.replace('@D@',D).replace('@ID@',pid).replace('@TITLE@',p['title']).replace('@STATEMENT@',p['statement']).replace('@QUANT@',str(p.get('quantifier',''))).replace('@WHY@',str(p.get('why_tests_cant',''))).replace('@FILES@',files).replace('@ANCHORS@',mech).replace('@TRIED@','\n'.join(tried))
+    if FRESH:
+        T2=T.replace('''breaking the property. Aim for SUBTLE, non-obvious breakage, and for NOVELTY: the following changes
+have already been made by others for this property - do not repeat any of these ideas, and do not
+make a similar change to the same function:
+@TRIED@
+''','''breaking the property. Aim for SUBTLE, non-obvious breakage.
+''')
+    else:
+        T2=T
+    t=T2.replace('@D@',D).replace('@ID@',pid).replace('@TITLE@',p['title']).replace('@STATEMENT@',p['statement']).replace('@QUANT@',str(p.get('quantifier',''))).replace('@WHY@',str(p.get('why_tests_cant',''))).replace('@FILES@',files).replace('@ANCHORS@',mech).replace('@TRIED@','\n'.join(tried))
     open('%s/%s.TASK.md'%(D,pid),'w').write(t)
     if not os.path.isdir('%s/%s'%(D,pid)):
         subprocess.check_call(['git','-C','/repo','worktree','add','-q','--detach','%s/%s'%(D,pid),'HEAD'])
